@@ -513,3 +513,11 @@ func mustDeref(t types.Type) types.Type {
 	}
 	panic("mustDeref: not a pointer: " + t.String())
 }
+
+func callerName(fr *frame) string {
+	s := ""
+	for n := 0; fr != nil && n < 4; fr, n = fr.caller, n+1 {
+		s += " < " + fr.fn.String()
+	}
+	return s
+}
